@@ -4,6 +4,7 @@ use std::io::{self, BufRead, Write};
 use std::panic;
 
 mod color;
+mod project;
 mod tirdump;
 mod typemap;
 mod uigen;
@@ -16,6 +17,7 @@ fn main() {
         "typemap" => typemap::run,
         "tir" => tirdump::run,
         "uigen" => uigen::run,
+        "project" => project::run,
         _ => {
             eprintln!("usage: vh <color|...> < cases.jsonl");
             std::process::exit(2);
